@@ -795,6 +795,35 @@ impl<Tr: ?Sized + TrOps, M: BackOps> World<Tr, M> {
             }
         }
         let _ = write!(line, " len={} cap={} snap={}", lens.join(","), caps.join(","), snaps.join("|"));
+        // monitor: every visible element is alive and appears exactly once
+        if T::SIZE > 0 {
+            let mut seen = std::collections::HashSet::new();
+            for v in self.vecs.iter().flatten() {
+                let tv = v.downcast_ref::<T>().unwrap();
+                for e in tv.as_slice() {
+                    let t = e.token();
+                    if !e.intact() {
+                        with_reg(|r| r.violations.push(format!("torn-element token={}", t)));
+                    }
+                    if !seen.insert(t) {
+                        with_reg(|r| r.violations.push(format!("duplicate-visible token={}", t)));
+                    }
+                    if T::DG {
+                        let alive = with_reg(|r| r.live.get(&t).copied().unwrap_or(0) > 0);
+                        if !alive {
+                            with_reg(|r| r.violations.push(format!("visible-dead token={}", t)));
+                        }
+                    }
+                }
+            }
+        } else if T::DG {
+            // zero-sized: by count
+            let visible: i64 = self.vecs.iter().flatten().map(|v| v.len() as i64).sum();
+            let live = with_reg(|r| r.live.get(&0).copied().unwrap_or(0));
+            if visible > live {
+                with_reg(|r| r.violations.push(format!("visible-dead count visible={} live={}", visible, live)));
+            }
+        }
     }
 }
 
